@@ -1784,10 +1784,13 @@ impl ElementMut for XmlElement {
             return Err(error::DomException::InuseAttributeErr)?;
         }
 
+        // the attribute that is replaced is the one with the same qualified name:
+        // xmlns:a, p:a and a are three different attributes
+        let prefix = new_attr.attribute.borrow().prefix().map(|v| v.to_string());
         let attr = self
             .element
             .borrow_mut()
-            .remove_attribute(new_attr.name().as_str())
+            .remove_attribute_qname(prefix.as_deref(), new_attr.name().as_str())
             .and_then(|v| v.as_attribute());
 
         self.element
